@@ -1057,6 +1057,8 @@ class Ctx:
                         if ka not in oa:
                             raise Unsupported('guarded insert in concrete dict')
                         oa[ka] = merge(gg, v, oa[ka])
+                elif isinstance(oa, list) and gg is True and isinstance(ka, int) and not isinstance(ka, bool):
+                    oa[ka] = v           # a concrete native list written on every path: the write happens natively
                 else:
                     raise Unsupported('setitem on %r' % (oa,))
 
@@ -1753,6 +1755,30 @@ def list_pop(ctx, lst):
     return res
 
 
+def list_pop_at(ctx, lst, k):
+    """lst.pop(k) for a concrete index k >= 0: IndexError when len <= k, otherwise the slots above k shift down"""
+    if lst.hi <= k:
+        ctx.raise_(True, IndexError('pop index out of range'))
+        return None
+    if lst.lo <= k:
+        ctx.raise_(b_not(lst.len_gt(k)), IndexError('pop index out of range'))
+    g = ctx.g
+    res = lst.slots[k]
+    new_slots = list(lst.slots)
+    for i in range(k, lst.hi - 1):
+        new_slots[i] = merge(g, lst.slots[i + 1], lst.slots[i]) if g is not True else lst.slots[i + 1]
+    if g is True and lst.lo == lst.hi:
+        lst.slots = new_slots[:lst.hi - 1]
+        lst.lo -= 1
+        lst.hi -= 1
+        lst.len = lst.lo
+    else:
+        lst.slots = new_slots
+        lst.len = merge(g, fold(lst.len, lambda n_: n_ - 1), lst.len)
+        lst.lo = max(0, lst.lo - 1)
+    return res
+
+
 def builtin_method(ctx, o, n, args, kwargs):
     g = ctx.g
     if isinstance(o, MSet):
@@ -1791,6 +1817,8 @@ def builtin_method(ctx, o, n, args, kwargs):
             return None
         if n == 'pop' and not args:
             return list_pop(ctx, o)
+        if n == 'pop' and len(args) == 1 and isinstance(args[0], int) and not isinstance(args[0], bool) and args[0] >= 0:
+            return list_pop_at(ctx, o, args[0])
         if n == '__iter__':
             return ListIter(o)
     raise Unsupported('method %s on %s' % (n, type(o).__name__))
